@@ -150,7 +150,7 @@ Definition field_ok (k : nat) (s : list byte) : bool := (length s <=? k)%nat && 
 
 Definition storable (f : tbi) : bool :=
   in_ityb I64 (t_version f) && field_ok DESC (t_descr f) && in_ityb I16 (t_year f) && in_ityb I64 (t_tf f)
-  && in_ityb I8 (t_rectype f) && in_ityb I32 (t_reclen f)
+  && in_ityb I8 (t_rectype f) && in_ityb I32 (t_reclen f) && (0 <=? t_reclen f)%Z
   && (0 <=? t_nelems f)%Z && (t_nelems f <=? maxNumElements)%Z
   && Z.eqb (Z.of_nat (length (t_names f))) (t_nelems f) && Z.eqb (Z.of_nat (length (t_types f))) (t_nelems f)
   && forallb (field_ok NAMEB) (t_names f)
